@@ -26,7 +26,11 @@ def run(tier, seed):
         tie[k] = tie.get(k, 0) + tie2.get(k, 0)
     tie["model_sites_hit_cv"] = tie2.get("model_sites_hit", {})
     specs = [("cv_mix", {"VRT_MODE": 0}, 2000, 40000), ("cv_mix", {"VRT_MODE": 4}, 1500, 30000), ("muwait_mix", {"VRT_MODE": 0}, 2000, 40000),
-             ("muwait_mix", {"VRT_MODE": 1}, 1000, 20000), ("muwait_mix", {"VRT_MODE": 0, "VRT_FINE": 600}, 1500, 30000), ("cancel_mix", {}, 3000, 60000)]
+             ("muwait_mix", {"VRT_MODE": 1}, 1000, 20000), ("muwait_mix", {"VRT_MODE": 0, "VRT_FINE": 600}, 1500, 30000), ("cancel_mix", {}, 3000, 60000),
+             # reader-mode / generic-lock timed and cancellable cv waits racing real wake-ups (MODE 6), untimed generic waits (MODE 5),
+             # expiring notes that nobody notifies explicitly
+             ("cv_mix", {"VRT_MODE": 6}, 2500, 50000), ("cv_mix", {"VRT_MODE": 6, "VRT_GENERIC": 1}, 800, 15000), ("cv_mix", {"VRT_MODE": 5}, 800, 15000),
+             ("cancel_mix", {"VRT_KIND": 2, "VRT_OMIT": 1}, 800, 15000), ("cancel_mix", {"VRT_KIND": 3, "VRT_OMIT": 1}, 800, 15000)]
     cov = scen_common.run_scenarios(res, specs, tier, seed, {"C05", "C01"} | scen_common.LIVENESS | scen_common.CRASHES)
     cov["rule"] = ("every return of nsync_cv_wait_with_deadline / nsync_mu_wait_with_deadline is checked: shadow lock mode, virtual clock vs "
                    "deadline for ETIMEDOUT, note state for ECANCELED, condition value for mu_wait; cancel_mix: notes fresh / already notified / "
